@@ -320,6 +320,22 @@ def rule_F2(prog):
         if not ok:
             r.find(fn.path, "wiring", "TextDiffConfig::%s must be self.diff(old.%s(), new.%s(), %s); found %s" % (
                 name, tok, tok, flag, got), file=fn.file, line=fn.line)
+    # builder setters store what they are given
+    for name, field, want in (("algorithm", "algorithm", "alg"), ("newline_terminated", "newline_terminated", "Some(yes)")):
+        fns = prog.find("text::TextDiffConfig::" + name)
+        if not fns:
+            continue
+        fn = fns[0]
+        r.instances += 1
+        asg = find_nodes(fn.hir["body"], lambda n: n["k"] == "assign" and origin(n["l"]) == "self." + field)
+        got = [origin(a["r"]) for a in asg]
+        pname = fn.hir["params"][1]["pat"].get("name") if len(fn.hir["params"]) > 1 else "?"
+        want_s = want.replace("alg", pname).replace("yes", pname)
+        ok = got == [want_s]
+        r.ob(ok, "TextDiffConfig::%s stores self.%s = %s" % (name, field, got))
+        if not ok:
+            r.find(fn.path, "setter", "TextDiffConfig::%s must store `self.%s = %s`; found %s" % (name, field, want_s, got or "no store"),
+                   file=fn.file, line=fn.line)
     fns = prog.find("text::TextDiffConfig::diff_slices")
     if fns:
         fn = fns[0]
@@ -1202,4 +1218,120 @@ def rule_F10(prog):
         if problems:
             r.find(fn.path, "extents", "hunk header extents must be (first op).X_range().start .. (last op).X_range().end; "
                    "found " + "; ".join(problems), file=fn.file, line=fn.line)
+    return r
+
+
+# ---------------------------------------------------------------- F11 / F12
+def rule_F11(prog):
+    r = RuleResult("F11", "the [u8] tokenizers take token boundaries from bstr's own (start, end) offsets and never derive a "
+                          "byte offset from char::len_utf8 (an invalid byte decodes to U+FFFD, whose UTF-8 length is not the "
+                          "length of the bytes it stands for)")
+    if "bytes" not in prog.features:
+        r.notes.append("feature bytes disabled")
+        return r
+    seen_str = 0
+    for fn in prog.user_fns():
+        if not (fn.impl and fn.impl.get("trait") == "text::abstraction::DiffableStr" and fn.name.startswith("tokenize_")):
+            continue
+        head = ty_head(fn.impl["self_ty"])
+        calls = find_nodes(fn.hir, lambda n: n["k"] == "mcall" and n["name"] in ("len_utf8", "len_utf16"))
+        if head == "str":
+            seen_str += len(calls)
+            continue
+        if head != "[u8]":
+            continue
+        r.instances += 1
+        r.ob(not calls, "[u8]::%s uses len_utf8 %d time(s)" % (fn.name, len(calls)))
+        if calls:
+            r.find(fn.path, "len_utf8", "[u8]::%s derives a byte offset from `%s`; decoded characters of invalid input are "
+                   "replacement characters, so offsets must come from bstr's char_indices end offsets" % (fn.name, calls[0].get("src", "len_utf8")),
+                   file=fn.file, line=calls[0]["line"])
+    if seen_str == 0:
+        r.notes.append("CONTROL-FAILED: the str tokenizers do not use len_utf8 (rule pattern no longer matches anything)")
+    return r
+
+
+def _twin_norm(fn):
+    """Body of a run tokenizer with the character-class test abstracted to CLASS(x) and locals alpha-renamed."""
+    names = {}
+
+    def nm(x):
+        if x not in names:
+            names[x] = "v%d" % len(names)
+        return names[x]
+
+    def is_class(n):
+        n = unwrap(n)
+        if isinstance(n, dict) and n.get("k") == "mcall" and n["name"] in CLASSIFIERS and not n["args"]:
+            return n["recv"]
+        if isinstance(n, dict) and n.get("k") == "binary" and n["op"] == "||":
+            subs = []
+            ok = True
+            for side in (n["l"], n["r"]):
+                side = unwrap(side)
+                if isinstance(side, dict) and side.get("k") == "binary" and side["op"] == "==" and unwrap(side["r"]).get("k") == "lit":
+                    subs.append(origin(side["l"]))
+                else:
+                    ok = False
+            if ok and len(set(subs)) == 1:
+                return unwrap(n["l"])["l"]
+        return None
+
+    def go(n):
+        if isinstance(n, dict):
+            c = is_class(n) if "k" in n else None
+            if c is not None:
+                return "CLASS(%s)" % go(c)
+            k = n.get("k")
+            if k == "path":
+                rr = n.get("res", {})
+                if rr.get("k") == "local":
+                    return nm(rr["id"])
+                return rr.get("path", "?").rsplit("::", 1)[-1]
+            if k == "bind":
+                return "B:" + nm(n["id"])
+            parts = []
+            for kk in sorted(n):
+                if kk in ("id", "line", "ty", "src", "adj_ty", "recv_ty", "gargs", "tyj", "exp", "base_ty", "local", "impl_self",
+                          "impl_trait", "source", "name") and not (kk == "name" and n.get("k") in ("mcall", "field")):
+                    continue
+                v = n[kk]
+                if isinstance(v, (dict, list)):
+                    parts.append("%s(%s)" % (kk, go(v)))
+                elif kk in ("k", "op", "name", "lit"):
+                    parts.append("%s=%s" % (kk, v))
+            return "{" + " ".join(parts) + "}"
+        if isinstance(n, list):
+            return "[" + ",".join(go(x) for x in n) + "]"
+        return str(n)
+    loops = find_nodes(fn.hir["body"], lambda n: n["k"] == "loop", stop=lambda n: n["k"] == "loop")
+    if len(loops) != 1:
+        return "LOOPS=%d" % len(loops)
+    return go(loops[0])
+
+
+def rule_F12(prog):
+    r = RuleResult("F12", "run tokenizers are twins: within each implementation (str, [u8]) tokenize_words and "
+                          "tokenize_lines_and_newlines have identical bodies up to the character-class test (is_whitespace vs "
+                          "is-CR-or-LF): same start offset, same end accumulation, same consume-after-peek discipline")
+    if "text" not in prog.features:
+        return r
+    impls = {}
+    for fn in prog.user_fns():
+        if fn.impl and fn.impl.get("trait") == "text::abstraction::DiffableStr" and fn.name in ("tokenize_words", "tokenize_lines_and_newlines"):
+            impls.setdefault(ty_head(fn.impl["self_ty"]), {})[fn.name] = fn
+    for head, pair in sorted(impls.items()):
+        if len(pair) != 2:
+            continue
+        r.instances += 1
+        a = _twin_norm(pair["tokenize_words"])
+        b = _twin_norm(pair["tokenize_lines_and_newlines"])
+        ok = a == b
+        r.ob(ok, "%s: tokenize_words and tokenize_lines_and_newlines identical up to the class test: %s" % (head, ok))
+        if not ok:
+            i = next((i for i, (x, y) in enumerate(zip(a, b)) if x != y), min(len(a), len(b)))
+            fnb = pair["tokenize_lines_and_newlines"]
+            r.find(fnb.path, "twins-differ:%s" % head, "%s: tokenize_words and tokenize_lines_and_newlines differ beyond the "
+                   "character-class test, near `%s` vs `%s`" % (head, a[max(0, i - 60):i + 40], b[max(0, i - 60):i + 40]),
+                   file=fnb.file, line=fnb.line)
     return r
